@@ -331,9 +331,14 @@ class SimE(Simulator):
                 ops.append(["user", rng.choice(["Unpause", "Unhold"])])
             else:
                 ops.append(["inject", gen.gen_snippet(rng, uniq)])
-                if rng.random() < 0.25:
+                r2 = rng.random()
+                if r2 < 0.25:
                     ops.append(["tick", rng.choice([1, 2]), 0.1])
                     ops.append(["edit", "append", 0, [f"Mark: a{uniq}"]])
+                elif r2 < 0.5:
+                    # a second snippet while whatever the first one started may still be under way
+                    ops.append(["tick", rng.choice([1, 2, 4, 5, 6, 7, 9]), 0.1])
+                    ops.append(["inject", gen.gen_snippet(rng, uniq + 5)])
         ops.append(["tick", 20, 0.1])
         ops.append(["settle", 200])
         ops.append(["end_stop"])
